@@ -579,6 +579,7 @@ Proof.
   destruct a.
   - (* AStart *)
     cbn in H. destruct (get id (calls s)) eqn:G; [discriminate|].
+    destruct (id <? 0) eqn:E0; [discriminate|].
     destruct (negb (f_st f =? 0) && negb (kind_eqb k KCtl)); [discriminate|].
     destruct ((f_st f =? 0) && kind_eqb k KCtl); [discriminate|].
     inversion H; subst; clear H. split; [reflexivity|]. cbn [fold_left].
